@@ -913,7 +913,7 @@ func famTwins(o *Out, r R, tier string) {
 			// every listed origin pattern as the origin it denotes (first 16), then generated requests
 			var fixed []reqT
 			for k, p := range c.Origins {
-				if k >= 16 || !strings.Contains(p, "://") {
+				if k >= 64 || !strings.Contains(p, "://") {
 					continue
 				}
 				og := strings.Replace(strings.Replace(p, "://*.", "://sub.", 1), ":*", ":7777", 1)
@@ -956,6 +956,36 @@ func famTwins(o *Out, r R, tier string) {
 			c2 := cloneCfg(c)
 			c2.RequestHeaders = []string{"x-foo", "*", auth}
 			emitTwin("twin-star-auth", c2, t2)
+		}
+	}
+	// one host under four to six schemes with one to three ports each (one tree node holding several parallel port
+	// lists), against its reversal and random permutations; every listed origin is probed by emitTwin
+	for k := 4; k <= 6; k++ {
+		for rep := 0; rep < 3; rep++ {
+			schemes := []string{"app", "http", "https", "tauri", "wails", "zz"}[:k]
+			ports := []string{"", ":3000", ":8443", ":9000"}
+			var pats []string
+			for si, sc := range schemes {
+				pats = append(pats, sc+"://example.com"+ports[(si+rep)%len(ports)])
+			}
+			for si, sc := range schemes {
+				if (si+rep)%2 == 0 {
+					pats = append(pats, sc+"://example.com"+ports[(si+rep+1)%len(ports)])
+				}
+			}
+			c := cors.Config{Origins: pats, Credentialed: true, ExtraConfig: cors.ExtraConfig{DangerouslyTolerateInsecureOrigins: true}}
+			t := cloneCfg(c)
+			t.Origins = append([]string{}, pats...)
+			for i, j := 0, len(t.Origins)-1; i < j; i, j = i+1, j-1 {
+				t.Origins[i], t.Origins[j] = t.Origins[j], t.Origins[i]
+			}
+			emitTwin("twin-schemes-ports", c, t)
+			for x := 0; x < 3; x++ {
+				t2 := cloneCfg(c)
+				t2.Origins = r.perm(pats)
+				emitTwin("twin-schemes-ports", c, t2)
+				emitTwin("twin-schemes-ports", t2, c)
+			}
 		}
 	}
 	for i := 0; i < n; i++ {
